@@ -8,9 +8,10 @@
 
 ctx_t G;
 int g_dispatch_native = 1;
+const char* const disp_name[N_DISP] = {"generic", "native", "avx2-only", "fma-only"};
 
 // hook H1 (guard SPQLIOS_VERIF in /repo/spqlios/commons_private.c)
-extern void spqlios_verif_set_cpu_mask(int allow_accelerated);
+extern void spqlios_verif_set_cpu_features(int allow_avx2, int allow_fma);
 static int dispatch_set_once;
 void set_dispatch(int native) {
   // no write when nothing changes: worker threads of the concurrency cases call this with the current value and
@@ -18,7 +19,9 @@ void set_dispatch(int native) {
   if (dispatch_set_once && g_dispatch_native == native) return;
   dispatch_set_once = 1;
   g_dispatch_native = native;
-  spqlios_verif_set_cpu_mask(native);
+  // 0 generic C, 1 everything the CPU has, 2 avx2 without fma, 3 fma without avx2 (the library gates its
+  // conversions / vec_znx / vmp / ntt120 kernels on "avx2" and its FFT / fftvec / reim4 kernels on "fma")
+  spqlios_verif_set_cpu_features(native == DISP_NATIVE || native == DISP_AVX2_ONLY, native == DISP_NATIVE || native == DISP_FMA_ONLY);
 }
 
 // ---------------------------------------------------------------- PRNG
